@@ -354,7 +354,7 @@ func c17Run(c *core.Ctx) *core.Result {
 	var base fsutil.FS
 	if kind == "synth" {
 		full = model
-		base = newSynthFS(model)
+		base = newSynthFSReaders(model, R)
 	} else {
 		if err := tree.Materialise(srcDir, model); err != nil {
 			r.Inconclusive = "materialise: " + err.Error()
